@@ -145,8 +145,8 @@ var propTable = map[string]*propSpec{
 	},
 	"C07": {
 		ID:          "C07",
-		Rules:       []string{"R-REGTABLE", "R-CONTEXT", "R-GATE", "R-KILL"},
-		Explanation: "Decides dependency-presence conditions of 'nested contexts conserve budgets and report status truthfully': a child's hard limits are computed from the parent's hard limits, its used resources (refreshed when time is tracked) and the request; soft limits from the child's new hard limits; PopContext re-charges the parent before restoring it; the status field has exactly its four owners, and CallContext sets the final status only on the error branch after everything that can still run Lua; Due() depends on stopLevel, softLimits and usedResources; required flags only grow (R-GATE b); a termination cannot be kept by a recover frame other than its owners and is forwarded from a dying coroutine to its resumer, including when it is raised by the coroutine's own __close handlers (R-KILL): otherwise the resumer carries on in a context already marked killed, whose limits are no longer enforced.",
+		Rules:       []string{"R-REGTABLE", "R-CONTEXT", "R-GATE", "R-KILL", "R-CTXSTACK"},
+		Explanation: "Decides dependency-presence conditions of 'nested contexts conserve budgets and report status truthfully': a child's hard limits are computed from the parent's hard limits, its used resources (refreshed when time is tracked) and the request; soft limits from the child's new hard limits; PopContext re-charges the parent before restoring it; the status field has exactly its four owners, and CallContext sets the final status only on the error branch after everything that can still run Lua; Due() depends on stopLevel, softLimits and usedResources; required flags only grow (R-GATE b); a termination cannot be kept by a recover frame other than its owners and is forwarded from a dying coroutine to its resumer, including when it is raised by the coroutine's own __close handlers (R-KILL): otherwise the resumer carries on in a context already marked killed, whose limits are no longer enforced; the one-per-runtime context stack is handed over consistently when a coroutine yields inside a push/pop bracket (R-CTXSTACK: it is not — a known finding).",
 		NotDecided:  "the '0 = unlimited' arithmetic of Remove/Merge/atLimit/smallerLimit over uint64 (value-level; a solver or exhaustive argument is a different family); that used never exceeds kill numerically.",
 		Assumptions: []string{"dependency presence is checked on SSA def-use slices (through calls), deliberately not expression shape, so inlining or renaming locals does not fire it; that the dependency is the *right* function of its inputs is not decided"},
 	},
